@@ -420,9 +420,101 @@ def _loops(ot, body_open):
     return res
 
 
+_BASELINE = None
+
+
+def alpha_normalise(cur, base):
+    """T9.  If `cur` equals `base` token for token except for a consistent, injective renaming of identifiers that are bound
+    locally in `cur` (let / closure / for / pattern / parameter bindings), return the list of (cur_name, base_name); else None.
+    Occurrences that are fields, methods, paths, calls or macros must be identical."""
+    a, b = lex(cur), lex(base)
+    if len(a) != len(b):
+        return None
+    fwd, back = {}, {}
+    for i, (x, y) in enumerate(zip(a, b)):
+        if x.text == y.text:
+            if x.kind == 'ident' and fwd.get(x.text, x.text) != y.text:
+                return None
+            continue
+        if x.kind != 'ident' or y.kind != 'ident':
+            return None
+        if not (x.text[0].islower() or x.text[0] == '_') or not (y.text[0].islower() or y.text[0] == '_'):
+            return None
+        prev = a[i - 1].text if i > 0 else ''
+        nxt = a[i + 1].text if i + 1 < len(a) else ''
+        nxt2 = a[i + 2].text if i + 2 < len(a) else ''
+        if prev in ('.', ':') or nxt in ('(', '!') or (nxt == ':' and nxt2 == ':') or x.text in ('self', 'crate', 'super'):
+            return None
+        if fwd.setdefault(x.text, y.text) != y.text or back.setdefault(y.text, x.text) != x.text:
+            return None
+    if not fwd:
+        return []
+    # every renamed name must have a binding occurrence in the current text
+    for name in fwd:
+        if not _has_binding(a, name):
+            return None
+    # a renamed name must not also occur unrenamed-equal elsewhere (would mean two different variables)
+    for i, (x, y) in enumerate(zip(a, b)):
+        if x.kind == 'ident' and x.text == y.text and (x.text in fwd or x.text in back) and (a[i - 1].text not in ('.', ':')):
+            return None
+    return sorted(fwd.items())
+
+
+def _has_binding(toks, name):
+    for j, t in enumerate(toks):
+        if t.kind != 'ident' or t.text != name:
+            continue
+        prev = toks[j - 1].text if j > 0 else ''
+        nxt = toks[j + 1].text if j + 1 < len(toks) else ''
+        nxt2 = toks[j + 2].text if j + 2 < len(toks) else ''
+        if prev in ('let', 'mut', 'for', '|'):
+            return True
+        if nxt == ':' and nxt2 != ':' and prev in ('(', ','):      # fn / closure parameter `name: T`
+            return True
+        if prev in ('(', ','):
+            # inside a parenthesised pattern?  look at what follows the enclosing group(s)
+            depth, k = 0, j
+            while k < len(toks):
+                if toks[k].text in '([':
+                    depth += 1
+                elif toks[k].text in ')]':
+                    if depth == 0:
+                        while k + 1 < len(toks) and toks[k + 1].text in ')]':
+                            k += 1
+                        after = toks[k + 1].text if k + 1 < len(toks) else ''
+                        after2 = toks[k + 2].text if k + 2 < len(toks) else ''
+                        if after in ('in', '|') or (after == '=' and after2 in ('>',)) or (after == '=' and after2 != '='):
+                            return True
+                        break
+                    depth -= 1
+                k += 1
+    return False
+
+
 def weave_fn(src, loc, fc, origins, as_stub=False, canary=None):
     """Return (OText of the woven fn item, info dict)."""
+    global _BASELINE
     ot = src.otext(loc['start'], loc['end'], origins)
+    renamed = None
+    if fc is not None:
+        if _BASELINE is None:
+            try:
+                _BASELINE = json.load(open(os.path.join(VERIF, 'contracts', 'baseline_src.json')))
+            except OSError:
+                _BASELINE = {}
+        base = _BASELINE.get(fc.key)
+        if base is not None and base != ot.s:
+            renamed = alpha_normalise(ot.s, base)
+            if renamed:
+                # verify the baseline spelling: same tokens, locals renamed back to the names the contracts use
+                m = dict(renamed)
+                toks = lex(ot.s)
+                for t in reversed(toks):
+                    if t.kind == 'ident' and t.text in m:
+                        prev = ot.s[:t.start].rstrip()[-1:] if t.start else ''
+                        if prev in ('.',):
+                            continue
+                        ot.replace(t.start, t.end, m[t.text], ot.orig[t.start])
     # T8: drop the visibility modifier (single-module verification)
     m = re.match(r'pub(\s*\(\s*crate\s*\))?\s+', ot.s)
     vis = m.end() if m else 0
@@ -431,6 +523,8 @@ def weave_fn(src, loc, fc, origins, as_stub=False, canary=None):
     body_rel = loc['body_open'] - loc['start'] - vis
     info = {'file': src.rel, 'lines': [src.line_of(loc['start']), src.line_of(loc['end'] - 1)],
             'sha256': hashlib.sha256(ot.s.encode()).hexdigest(), 'rewrites': [], 'outlined': []}
+    if renamed:
+        info['rewrites'].append({'rule': 'T9', 'count': len(renamed), 'from': ', '.join(a for a, b in renamed), 'to': ', '.join(b for a, b in renamed)})
     what = fc.key if fc else '?'
     outlined_text = []
 
